@@ -91,4 +91,27 @@ theorem closed_run {W : World} {R : List Sys} (hc : closedB W R = true) : ∀ (a
   | nil => intro σ h; exact h
   | cons a as ih => intro σ h; exact ih _ (closed_step hc h a)
 
+/-! ### the three finite checks (kernel evaluation of the model; no axioms beyond the usual) -/
+
+theorem reach0_init : Sys.init W0 ∈ reach0 := by decide +kernel
+
+/-- `reach0` is closed under every network action -/
+theorem reach0_closed : closedB W0 reach0 = true := by decide +kernel
+
+/-- from every state of `reach0` two fair rounds connect both endpoints -/
+theorem reach0_good : (reach0.all fun σ => bothConnected (fairRound W0 (fairRound W0 σ))) = true := by decide +kernel
+
+/-- in every state of `reach0` two Connected endpoints hold the same keys and SRTP profile -/
+theorem reach0_agree : (reach0.all fun σ =>
+    !(σ.c.conn == .connected && σ.s.conn == .connected) ||
+      (decide (σ.c.connKeys = σ.s.connKeys) && decide (σ.c.connSrtp = σ.s.connSrtp) && σ.c.connKeys.isSome)) = true := by
+  decide +kernel
+
+/-- no state of `reach0` has a Failed or Closed endpoint (an honest network cannot make the handshake fail) -/
+theorem reach0_no_failure : (reach0.all fun σ =>
+    σ.c.conn != .failed && σ.s.conn != .failed && σ.c.conn != .closed && σ.s.conn != .closed && σ.c.alive && σ.s.alive) = true := by
+  decide +kernel
+
+theorem reach0_length : reach0.length = 9 := by decide +kernel
+
 end RtcModel.DtlsFlights
